@@ -491,3 +491,7 @@ def check(run, prog):
     rule_history_append_only(run, prog)      # R-14.9
     from .c14_after_endif import rule_before_ifndef
     rule_before_ifndef(run, prog)            # R-14.10
+    # the guard verdict is a function of this file's name and text: no table shared between files (a memo keyed by the stem
+    # makes foo.c and foo.h answer for each other)
+    from .c06 import rule_shared_mutables
+    rule_shared_mutables(run, prog, "R-14.11")
